@@ -408,6 +408,8 @@ static void c12_domains(Context& cx)
     for (auto& d : doms)
         for (auto& tg : g_targets)
         {
+            if (!cx.opt.only_ops.empty() && !cx.opt.only_ops.count(d.fn))
+                continue;
             const xsv_entry* e = tg.find(d.fn, prec<T>::tn);
             if (!e)
                 continue;
@@ -455,6 +457,8 @@ static void c12_domains(Context& cx)
     // pow(negative base, non-integer exponent) = NaN
     for (auto& tg : g_targets)
     {
+        if (!cx.opt.only_ops.empty() && !cx.opt.only_ops.count("pow"))
+            continue;
         const xsv_entry* e = tg.find("pow", prec<T>::tn);
         if (!e)
             continue;
